@@ -94,6 +94,7 @@ class Cur:
         self.sid = step["id"]
         self.ncb = 0
         self.ncb_top = 0
+        self.nprod_top = 0  # operator products of the outer call only (not user-function yields, not nested calls)
         self.depth = 0
         self.explicit = explicit  # True: use step['x'] only
         self.cb = dict((step.get("x") or {}).get("cb") or {})
@@ -232,6 +233,8 @@ class Ctx:
         cur = self.cur
         if self.harness_depth > 0 or cur is None:
             return inner @ X
+        if cur.depth == 0:
+            cur.nprod_top += 1
         act = self.yield_point(cur)
         Y = inner @ X
         if act[0] == "nonfinite":
@@ -300,8 +303,8 @@ class Ctx:
         from .calls import FNS, call
         if sub.get("fn") not in FNS or not self.slots_ok(sub.get("args", {})):
             return
-        key = call_key(sub)
-        same = key == call_key(cur.step)
+        key = self.ckey(sub)
+        same = key == self.ckey(cur.step)
         self.stats["reenter_same_key" if same else "reenter_other_key"] += 1
         args = self.resolve_args(sub.get("args", {}))
         try:
@@ -344,6 +347,21 @@ class Ctx:
                 if "slot" not in v and "arr" not in v and "algobj" not in v and not self.slots_ok(v):
                     return False
         return True
+
+    def ckey(self, step):
+        """Key of a call in the result table: operands are identified by the VALUE they were built from (their
+        ref-expanded recipe), not by the slot name, so that the same routine on a second, equal operator with the
+        same key must return the same bits.  Operators manufactured by calls keep their slot identity."""
+        def canon_arg(v):
+            if isinstance(v, dict):
+                if "slot" in v and v["slot"] in self.pool:
+                    rec = self.pool[v["slot"]].recipe
+                    if rec.get("k") != "result" and not _has_result_ref(rec, self.pool):
+                        return {"op": _expand(rec, self.pool)}
+                    return v
+                return {k: canon_arg(x) for k, x in v.items()}
+            return v
+        return canon({"fn": step["fn"], "args": {k: canon_arg(v) for k, v in step.get("args", {}).items()}})
 
     # ---------------------------------------------------------------------- result table
     def compare_result(self, key, out, step, where):
@@ -746,7 +764,7 @@ class Ctx:
         if step["fn"] not in FNS or not self.slots_ok(step.get("args", {})):
             self.events.append(("skip", sid))
             return
-        key = call_key(step)
+        key = self.ckey(step)
         args = self.resolve_args(step.get("args", {}))
 
         def body():
@@ -811,13 +829,16 @@ class Ctx:
 
     def check_hutch_steps(self, step, args):
         """I-STEPS: Hutchinson performs <= max(1, max_iters) products (measured at the Probe seam)."""
-        if step["fn"] != "hutch":
+        if self.prop != "C17" or step["fn"] not in ("hutch", "diag_hutch", "trace_hutch"):
             return
         A = args.get("A")
         if type(A).__name__ != "LinearOperator" or not getattr(getattr(A, "_matmat", None), "__name__",
                                                                    "").startswith("probe"):
             return
-        mi = step["args"].get("max_iters", 10000)
+        alg = args.get("alg")
+        mi = getattr(alg, "max_iters", None) if alg is not None else step["args"].get("max_iters", 10000)
+        if mi is None:
+            return
         n = self._last_ncb
         self.stats["hutch_products_counted"] += 1
         if n >= max(1, mi):
@@ -1037,7 +1058,7 @@ class Ctx:
                     self.pool[store] = Entry(_first_op(res), None, None, False, {"k": "result", "of": step["fn"]}, sid)
         self._materialise(sid, cur, f, k)
         self._last_used = cur.used
-        self._last_ncb = cur.ncb_top
+        self._last_ncb = cur.nprod_top
         self._last_ncb_all = cur.ncb
         self._last_nalloc = st[0]
         self._last_outcome = outcome[:2]
@@ -1054,7 +1075,7 @@ class Ctx:
         tw = f.get("twin")
         if tw is not None and step["op"] == "call" and tw["out"][0] in ("ok", "exc"):
             # reference outcome of the fault-free twin: what a later fault-free repeat must return
-            key = call_key(step)
+            key = self.ckey(step)
             if key not in self.results:
                 self.results[key] = {"out": tw["out"], "state": pre_state,
                                      "where": "fault-free twin of step %d" % sid}
@@ -1128,6 +1149,32 @@ def _raised_in_harness(e):
 
 def call_key(step):
     return canon({"fn": step["fn"], "args": step.get("args", {})})
+
+
+def _expand(r, pool, depth=0):
+    """Recipe with every {"k": "ref"} replaced by the referenced slot's own (expanded) recipe."""
+    if depth > 12:
+        return r
+    if isinstance(r, dict):
+        if r.get("k") == "ref" and r.get("slot") in pool and pool[r["slot"]].recipe.get("k") != "result":
+            return _expand(pool[r["slot"]].recipe, pool, depth + 1)
+        return {k: _expand(v, pool, depth + 1) for k, v in r.items()}
+    if isinstance(r, list):
+        return [_expand(v, pool, depth + 1) for v in r]
+    return r
+
+
+def _has_result_ref(r, pool, depth=0):
+    if depth > 12:
+        return False
+    if isinstance(r, dict):
+        if r.get("k") == "ref":
+            e = pool.get(r.get("slot"))
+            return e is None or e.recipe.get("k") == "result" or _has_result_ref(e.recipe, pool, depth + 1)
+        return any(_has_result_ref(v, pool, depth + 1) for v in r.values())
+    if isinstance(r, list):
+        return any(_has_result_ref(v, pool, depth + 1) for v in r)
+    return False
 
 
 def recipe_slots(r, out=None):
